@@ -217,9 +217,14 @@ def number_tokens_ok(text):
             d = Decimal(tok)
         except Exception:
             return False
-        if d == 0:
-            continue
-        t = d.normalize().as_tuple()
+        try:
+            if d == 0:
+                continue
+            if abs(d.adjusted()) > 400:
+                return False
+            t = d.normalize().as_tuple()
+        except Exception:
+            return False
         if len(t.digits) > 15:
             return False
         mag = len(t.digits) + t.exponent
